@@ -170,18 +170,18 @@ int main(void)
 		enc_tab[i] = src[i];
 	}
 	st = of_create_codec_instance(&enc, (of_codec_id_t)CODEC, OF_ENCODER, 0);
-	CHECK(st == OF_STATUS_OK && enc != NULL, "SETUP.encoder_create");
+	REQUIRE(st == OF_STATUS_OK && enc != NULL, "SETUP.encoder_create");
 	st = of_set_fec_parameters(enc, fill_params(&prm, CODEC, PK, PR, PLEN, PM, PN1, PSEED));
-	CHECK(st == OF_STATUS_OK, "SETUP.encoder_params_accepted");
+	REQUIRE(st == OF_STATUS_OK, "SETUP.encoder_params_accepted");
 	for (esi = PK; esi < PN; esi++) {
 		enc_tab[esi] = xmalloc(PLEN);
 		st = of_build_repair_symbol(enc, (void **)enc_tab, esi);
-		CHECK(st == OF_STATUS_OK, "SETUP.build_repair_ok");
+		REQUIRE(st == OF_STATUS_OK, "SETUP.build_repair_ok");
 	}
 	if (EN_C07) for (i = 0; i < PK; i++) for (j = 0; j < PLEN; j++)
 		CHECK(src[i][j] == src_copy[i][j], "C07.encoder_source_buffers_unchanged");
 	st = of_release_codec_instance(enc);
-	CHECK(st == OF_STATUS_OK, "SETUP.encoder_release");
+	REQUIRE(st == OF_STATUS_OK, "SETUP.encoder_release");
 
 	/* the network: private copies of every encoding symbol */
 	for (esi = 0; esi < PN; esi++) {
@@ -192,10 +192,10 @@ int main(void)
 	/* ---------------- decoder session */
 	if (step++ == CUT) goto done_nodec;
 	st = of_create_codec_instance(&dec, (of_codec_id_t)CODEC, ROLE_BOTH ? OF_ENCODER_AND_DECODER : OF_DECODER, 0);
-	CHECK(st == OF_STATUS_OK && dec != NULL, "SETUP.decoder_create");
+	REQUIRE(st == OF_STATUS_OK && dec != NULL, "SETUP.decoder_create");
 	if (step++ == CUT) goto done;
 	st = of_set_fec_parameters(dec, fill_params(&prm, CODEC, PK, PR, PLEN, PM, PN1, PSEED));
-	CHECK(st == OF_STATUS_OK, "SETUP.decoder_params_accepted");
+	REQUIRE(st == OF_STATUS_OK, "SETUP.decoder_params_accepted");
 	if (step++ == CUT) goto done;
 #if defined(BOTH_ENCODES) && ROLE_BOTH
 	/* an encoder+decoder instance used both ways: it first builds every repair symbol itself */
@@ -205,7 +205,7 @@ int main(void)
 		for (esi = PK; esi < PN; esi++) {
 			t2[esi] = xmalloc(PLEN);
 			st = of_build_repair_symbol(dec, t2, esi);
-			CHECK(st == OF_STATUS_OK, "SETUP.build_repair_on_encoder_decoder_instance");
+			REQUIRE(st == OF_STATUS_OK, "SETUP.build_repair_on_encoder_decoder_instance");
 			for (j = 0; j < PLEN; j++) CHECK(((unsigned char *)t2[esi])[j] == enc_tab[esi][j], "C12.encoder_decoder_instance_builds_the_same_repair_symbol");
 		}
 		for (esi = PK; esi < PN; esi++) free(t2[esi]);
@@ -213,7 +213,7 @@ int main(void)
 #endif
 #if CB != 0
 	st = of_set_callback_functions(dec, source_cb, NULL, &cb_ctx_token);
-	CHECK(st == OF_STATUS_OK, "SETUP.set_callback_ok");
+	REQUIRE(st == OF_STATUS_OK, "SETUP.set_callback_ok");
 	if (step++ == CUT) goto done;
 #endif
 
